@@ -211,6 +211,48 @@ def compilation_histories(ctx, S, nprog):
     ctx.count("compilation histories sharing subroutines across two specs: agree", n_ok)
 
 
+def twin_device_functions(ctx, S, kernel_ns):
+    """several device functions built from ONE tweezer kernel with different tone lists, called with equal arguments in the same
+    direction (forward and reversed, straight-line and in a loop): every route plays, for each call, the tones written in the source"""
+    src = ("def main(n: int):\n"
+           "    fa = schedule.device_fn(k0, [0, 1], [0])\n    fb = schedule.device_fn(k0, [2, 3], [1])\n"
+           "    fc = schedule.device_fn(k2, [0], [0])\n    fd = schedule.device_fn(k2, [4], [2])\n"
+           "    fa(1.0, 2.0)\n    fb(1.0, 2.0)\n    rb = schedule.reverse(fb)\n    rb(1.0, 2.0)\n    schedule.reverse(fa)(1.0, 2.0)\n"
+           "    i = 0\n    for i in range(n):\n        fd(3.0, 0.5)\n        fc(3.0, 0.5)\n    fb(b=2.0, a=1.0)\n")
+    want = lambda n: ([([0, 1], [0]), ([2, 3], [1]), ([2, 3], [1]), ([0, 1], [0])] + [([4], [2]), ([0], [0])] * n + [([2, 3], [1])])
+    logs = {}
+    for dec, plain, post, label in (("@move", False, None, "run-time spec"), ("@move(fold=False)", False, None, "run-time spec, fold=False"),
+                                    ("@move(aggressive=True)", False, None, "run-time spec, aggressive"),
+                                    ("@move(typeinfer=False, verify=False)", False, None, "run-time spec, no type inference"),
+                                    ("@move", False, "rerun", "run-time spec, pipeline applied again"),
+                                    ("@move(arch_spec=S)", True, None, "compile-time spec"),
+                                    ("@move(arch_spec=S, fold=False)", True, None, "compile-time spec, fold=False")):
+        for n in (0, 2):
+            ctx.evaluations += 1
+            rep = {"twin_src": dec + "\n" + src, "route": label, "n": n}
+            try:
+                m = kernels.define(dec + "\n" + src, S=S, **kernel_ns)["main"]
+                if post == "rerun":
+                    from bloqade.shuttle.prelude import move
+                    move.run_pass(m)
+                st, evs, extra = events.run_events(m, (n,), S, plain=plain)
+            except Exception as e:
+                st, evs, extra = "err", [], f"{type(e).__name__}: {e}"
+            tones = [(list(e[1].x_tones), list(e[1].y_tones)) for e in evs if e[0] == "play" and hasattr(e[1], "x_tones")]
+            logs[(label, n)] = text_of(evs)
+            if st != "ok" or tones != want(n):
+                k = next((j for j in range(min(len(tones), len(want(n)))) if tones[j] != want(n)[j]), min(len(tones), len(want(n))))
+                ctx.fail({"kind": "events-differ", "route": label, "scenario": "device functions of one kernel with different tones"}, rep,
+                         f"{label}: call {k} plays tones {tones[k] if k < len(tones) else None} where the source says {want(n)[k] if k < len(want(n)) else None} ({str(extra)[:80]})")
+            else:
+                ctx.nt(("twin-device-fns", label, n))
+    for n in (0, 2):
+        if len({tuple(v) for (l, k), v in logs.items() if k == n}) > 1:
+            ctx.fail({"kind": "events-differ", "scenario": "device functions of one kernel with different tones", "symptom": "routes disagree"}, {"twin_src": src, "n": n},
+                     "the routes execute different events for device functions that share a kernel and differ in their tones")
+    ctx.count("device functions of one kernel with different tones: routes x trip counts", len(logs))
+
+
 def same_name_subroutines(ctx, S, kernel_ns):
     """two DIFFERENT subroutines that carry the same name (e.g. produced by a factory), both called by one kernel"""
     pro = '    z0 = spec.get_static_trap(zone_id="traps")\n    f0 = schedule.device_fn(k0, [0, 1], [0])\n'
@@ -322,6 +364,7 @@ def run(ctx):
                     ctx.hist("route_outcome", "agrees")
     compilation_histories(ctx, S, ctx.pick(10, 80))
     same_name_subroutines(ctx, S, kernel_ns)
+    twin_device_functions(ctx, S, kernel_ns)
     # ---- Coq: the source-level semantics of Model.MoveLang on the same programs ----
     byprog = {}
     for c in labels_cases:
